@@ -15,10 +15,10 @@ Open Scope Z_scope.
 Definition final_prefix (vers : list N) (sched : list tid) : sstate :=
   shared (run (exec_gen false) sched (shutdown_threads vers)).
 
-(* tids for one connection: 0 closer, 1 accept loop, 2 client, 3 handler.
-   dial, accept, spawn, handler runs ClientsWg.Add; Close: end, snapshot (empty), disconnect, close
+(* tids for one connection: 0 closer, 1 accept loop, 2 client, 3 handler (4 client going away).
+   dial, send CONNECT, accept, spawn, handler runs ClientsWg.Add and reads the CONNECT; Close: end, snapshot (empty), disconnect, close
    listener, (accept loop returns), Wait blocks; the handler goes on: Clients.Add, CONNACK, serving *)
-Definition mid_attach : list tid := [1; 2; 1; 1; 1; 3; 0; 0; 0; 0; 1; 0; 0; 3; 3]%nat.
+Definition mid_attach : list tid := [1; 2; 2; 1; 1; 1; 3; 3; 0; 0; 0; 0; 1; 0; 0; 3; 3]%nat.
 
 Lemma prefix_mid_attach :
   let s := final_prefix [5%N] mid_attach in
@@ -36,7 +36,7 @@ Lemma fixed_mid_attach :
 Proof. vm_compute. repeat split. Qed.
 
 (* Close sets end; a client dials; Accept returns the connection; end = 1: dropped; Close completes *)
-Definition accept_after_end : list tid := [1; 0; 2; 1; 1; 1; 0; 0; 0; 0; 0]%nat.
+Definition accept_after_end : list tid := [1; 0; 2; 2; 1; 1; 1; 0; 0; 0; 0; 0]%nat.
 
 Lemma prefix_dropped :
   let s := final_prefix [5%N] accept_after_end in
